@@ -119,7 +119,7 @@ Attrs == [c \in Class |->
      [] c = "vanDerWaalsEOS" -> {"a", "b"}
      [] OTHER -> {} ]
 
-Range(s) == {s[i] : i \in 1..Len(s)}
+Rng(s) == {s[i] : i \in 1..Len(s)}
 SlotNames(c) == {Schema[c][i].s : i \in 1..Len(Schema[c])}
 
 \* ------------------------------------------------------------------------
@@ -157,17 +157,17 @@ InPlace == ~Required
 \* ------------------------------------------------------------------------
 \* trees
 \* ------------------------------------------------------------------------
-RECURSIVE Min(_)
-Min(c) == [kind |-> "obj", c |-> c, a |-> Attrs[c],
+RECURSIVE MinTree(_)
+MinTree(c) == [kind |-> "obj", c |-> c, a |-> Attrs[c],
            k |-> [s \in SlotNames(c) |->
-                    LET sl == CHOOSE x \in Range(Schema[c]) : x.s = s
-                    IN IF sl.kind = "one" THEN << Min(sl.of[1]) >>
-                       ELSE IF sl.kind = "list" THEN [i \in 1..sl.min |-> Min(sl.of[1])]
+                    LET sl == CHOOSE x \in Rng(Schema[c]) : x.s = s
+                    IN IF sl.kind = "one" THEN << MinTree(sl.of[1]) >>
+                       ELSE IF sl.kind = "list" THEN [i \in 1..sl.min |-> MinTree(sl.of[1])]
                        ELSE << >>]]
-MinT == [c \in Class |-> Min(c)]
+MinT == [c \in Class |-> MinTree(c)]
 
 SlotSeqs(sl, prev) ==
-   LET ts == UNION {prev[c2] : c2 \in Range(sl.of)}
+   LET ts == UNION {prev[c2] : c2 \in Rng(sl.of)}
        m == MinT[sl.of[1]]
    IN CASE sl.kind = "one" -> {<<t>> : t \in ts}
         [] sl.kind = "opt" -> {<<t>> : t \in ts} \cup {<< >>}
@@ -178,15 +178,11 @@ SlotSeqs(sl, prev) ==
 Step(prev) == [c \in Class |->
    {MinT[c]} \cup UNION {{[MinT[c] EXCEPT !.k[Schema[c][i].s] = q] : q \in SlotSeqs(Schema[c][i], prev)}
                          : i \in 1..Len(Schema[c])}]
-V0 == [c \in Class |-> {MinT[c]}]
-V1 == Step(V0)
-V2 == Step(V1)
-V3 == Step(V2)
-V4 == Step(V3)
-VarAt(d) == CASE d = 0 -> V0 [] d = 1 -> V1 [] d = 2 -> V2 [] d = 3 -> V3 [] OTHER -> V4
+RECURSIVE VarAt(_)
+VarAt(d) == IF d = 0 THEN [c \in Class |-> {MinT[c]}] ELSE Step(VarAt(d - 1))
 Trees == UNION {VarAt(MaxDepth)[c] : c \in Roots}
 
-Kids(t) == UNION {Range(t.k[s]) : s \in DOMAIN t.k}
+Kids(t) == UNION {Rng(t.k[s]) : s \in DOMAIN t.k}
 
 \* ------------------------------------------------------------------------
 \* encode / decode
@@ -203,7 +199,7 @@ HasKind(t, kd) == \/ t.kind = kd
 
 \* cls.from_dict on a dictionary whose children are `kids`
 FromDict(c, a, kids) ==
-   IF c \in RaisesOnDecode \/ \E s \in DOMAIN kids : \E x \in Range(kids[s]) : x.kind = "error" THEN Error
+   IF c \in RaisesOnDecode \/ \E s \in DOMAIN kids : \E x \in Rng(kids[s]) : x.kind = "error" THEN Error
    ELSE [kind |-> "obj", c |-> c, a |-> a \ NotRestored(c),
          k |-> [s \in DOMAIN kids |-> IF s \in SlotsNotRestored(c) THEN << >> ELSE kids[s]]]
 
@@ -211,7 +207,7 @@ FromDict(c, a, kids) ==
 HookDecode(j) ==
    LET kids == [s \in DOMAIN j.k |-> MapSeq(j.k[s], HookDecode)]
    IN IF j.c \in Registry THEN FromDict(j.c, j.a, kids)
-      ELSE IF \E s \in DOMAIN kids : \E x \in Range(kids[s]) : x.kind = "error" THEN Error
+      ELSE IF \E s \in DOMAIN kids : \E x \in Rng(kids[s]) : x.kind = "error" THEN Error
       ELSE [j EXCEPT !.k = kids]
 
 \* json_to_pmutt(d): the outermost from_dict decodes (or not) its own children
